@@ -207,6 +207,9 @@ func c03Scenario(p c03Params) Scenario {
 		detail := func() any {
 			return map[string]any{"wire": strings.Split(framesString(frames), "\n"), "fslog": strings.Split(s.fs.logString(), "\n"), "parked": x.Parked}
 		}
+		if len(s.c.Junk) > 0 {
+			return &Viol{Sig: "C03/truncated-or-garbled-frame", Msg: fmt.Sprintf("the reply stream ends in %d bytes that are not a frame: % x\n%s", len(s.c.Junk), s.c.Junk, framesString(frames)), Detail: detail()}
+		}
 		count := map[uint16]int{}
 		// Known root cause (DESIGN.md section 7, #21): an extra answer re-packs the
 		// reply buffer that the writer (or, after recycling, another request) owns.
@@ -287,6 +290,87 @@ func c03Scenario(p c03Params) Scenario {
 	return vsScenario(sp)
 }
 
+// c03FlushScenario: a request parked in the implementation is cancelled through
+// FlushOp; later requests (which receive recycled reply buffers) run while the
+// cancelled worker wakes up and answers late. The cancelled request may get at
+// most one reply, everything else exactly one with its own content.
+func c03FlushScenario(kindA, kindB string, nB int, maxpend int, dotu bool, P int) Scenario {
+	var s *sess
+	var tagsB []uint16
+	var msgsB []*wire.Msg
+	name := fmt.Sprintf("flushed-late-answer[%s then %dx%s] maxpend=%d dotu=%v", kindA, nB, kindB, maxpend, dotu)
+	body := func() {
+		s = newSess(SrvOpt{Msize: 256, Dotu: dotu, Maxpend: maxpend, Flush: true})
+		s.fs.FlushMode = "cancel"
+		a := s.prepare(kindA, 10, 100)
+		gate := vs.NewSem(0)
+		s.fs.Script[reqKey{0, 100, 0}] = &Action{Gate: gate, Direct: true}
+		tagsB, msgsB = nil, nil
+		for i := 0; i < nB; i++ {
+			t := uint16(110 + i)
+			tagsB = append(tagsB, t)
+			msgsB = append(msgsB, s.prepare(kindB, uint32(20+i), t))
+		}
+		s.c.Send(dotu, a)
+		vs.Idle()
+		if r := s.c.Rpc(&wire.Msg{Type: wire.Tflush, Tag: 101, Oldtag: 100}); r == nil || r.Type != wire.Rflush {
+			vs.Fail("setup: Tflush of the parked request answered by %v", r)
+		}
+		s.setupN = len(s.c.Collect())
+		vs.Window(true)
+		vs.Go("releaser", func() { gate.Release() })
+		s.c.Send(dotu, msgsB...)
+		vs.Idle()
+		vs.Window(false)
+		s.c.Collect()
+	}
+	check := stdCheck("C03", func(x *vs.Exec) *Viol {
+		frames := s.c.Frames[s.setupN:]
+		detail := map[string]any{"wire": strings.Split(framesString(frames), "\n"), "fslog": strings.Split(s.fs.logString(), "\n")}
+		if len(s.c.Junk) > 0 {
+			return &Viol{Sig: "C03/truncated-or-garbled-frame", Msg: fmt.Sprintf("the reply stream ends in %d bytes that are not a frame\n%s", len(s.c.Junk), framesString(frames)), Detail: detail}
+		}
+		count := map[uint16]int{}
+		for _, f := range frames {
+			if f.Msg == nil {
+				return &Viol{Sig: "C03/malformed-frame", Msg: "unparseable frame: " + f.Err + "\n" + framesString(frames), Detail: detail}
+			}
+			count[f.Msg.Tag]++
+		}
+		if count[100] > 0 {
+			return &Viol{Sig: "C03/reply-after-cancel", Msg: "a request cancelled by Tflush (Rflush already delivered) was answered afterwards\n" + framesString(frames), Detail: detail}
+		}
+		for i, t := range tagsB {
+			if count[t] != 1 {
+				return &Viol{Sig: fmt.Sprintf("C03/reply-count-%d/after-cancelled-request", count[t]), Msg: fmt.Sprintf("request %s got %d replies\n%s", msgsB[i], count[t], framesString(frames)), Detail: detail}
+			}
+			for _, f := range frames {
+				if f.Msg.Tag != t {
+					continue
+				}
+				got := renderReply(f.Msg)
+				ok := false
+				for _, r := range s.fs.resps(0, t, 0) {
+					if r.Reply == got {
+						ok = true
+					}
+				}
+				if !ok {
+					return &Viol{Sig: "C03/wrong-content/after-cancelled-request", Msg: fmt.Sprintf("request %s: reply on the wire %q is not what the implementation produced for it\n%s", msgsB[i], got, framesString(frames)), Detail: detail}
+				}
+			}
+			delete(count, t)
+		}
+		for t := range count {
+			return &Viol{Sig: "C03/reply-for-unknown-tag/after-cancelled-request", Msg: fmt.Sprintf("frame with tag %d that no outstanding request has\n%s", t, framesString(frames)), Detail: detail}
+		}
+		return nil
+	}, nil)
+	return vsScenario(&VsSpec{Name: name, Body: body, Check: check, P: P, Sample: func() any {
+		return map[string]any{"cancelled": kindA, "later": fmt.Sprint(msgsB), "replies": strings.Split(framesString(s.c.Frames[s.setupN:]), "\n")}
+	}})
+}
+
 func perms(xs []int) [][]int {
 	if len(xs) <= 1 {
 		return [][]int{append([]int(nil), xs...)}
@@ -330,6 +414,7 @@ func c03Scenarios(tier string) []Scenario {
 			add([]reqSpec{{"write", sc[0]}, {"read", sc[1]}}, 1, false, false, 2)
 		}
 		add([]reqSpec{{"read", "gate"}, {"write", "gate"}, {"stat", "gate"}}, 0, true, true, 1)
+		out = append(out, c03FlushScenario("read", "stat", 1, 0, true, 2), c03FlushScenario("stat", "read", 2, 1, false, 2), c03FlushScenario("walk", "write", 1, 2, true, 2))
 		return out
 	}
 	for a := 0; a < len(kinds); a++ {
@@ -346,6 +431,9 @@ func c03Scenarios(tier string) []Scenario {
 	}
 	add([]reqSpec{{"read", "gate"}, {"write", "gate"}, {"stat", "gate"}, {"open", "gate"}}, 0, true, true, 1)
 	add([]reqSpec{{"read", "gate"}, {"write", "gate"}, {"stat", "gate"}, {"open", "gate"}, {"clunk", "gate"}}, 0, false, true, 0)
+	for i, ka := range kinds {
+		out = append(out, c03FlushScenario(ka, kinds[(i+1)%len(kinds)], 1+i%2, i%3, i%2 == 0, 3))
+	}
 	// many outstanding requests, default schedule and P=1
 	big := func(n int) []reqSpec {
 		var r []reqSpec
